@@ -68,6 +68,15 @@ fn main() {
       "C01" => Some(chain::sats::run(&ctx, "C01")),
       "C02" => Some(chain::sats::run(&ctx, "C02")),
       "C17" => Some(chain::sats::run(&ctx, "C17")),
+      "C08" => Some(chain::runes::run(&ctx, "C08")),
+      "C09" => Some(chain::runes::run(&ctx, "C09")),
+      "C10" => Some(chain::runes::run(&ctx, "C10")),
+      "C11" => Some(chain::runes::run(&ctx, "C11")),
+      "C03" => Some(chain::inscriptions::run(&ctx, "C03")),
+      "C04" => Some(chain::inscriptions::run(&ctx, "C04")),
+      "C05" => Some(chain::inscriptions::run(&ctx, "C05")),
+      "C06" => Some(chain::inscriptions::run(&ctx, "C06")),
+      "C07" => Some(chain::inscriptions::run(&ctx, "C07")),
       _ => None,
     }
   };
